@@ -159,10 +159,10 @@ theorem keep_ackBlock (s u : Tcb) (seg : Hdr) (r : Option ProcessSegmentResult)
       repeat' (split at hk)
       all_goals (cases hk; first | exact hv | exact keep_right hv rfl rfl rfl)
     case LastAck =>
-      dsimp only at h
-      split at h <;> (cases h; ports_leaf)
+      obtain ⟨v, r0, hv, hk⟩ := afterAck_inv_keep _ _ _ _ _ h
+      repeat' (split at hk)
+      all_goals (cases hk; exact hv)
     case TimeWait =>
-      rw [Tcb.enqueueThen_eq] at h
       cases h; ports_leaf
 
 theorem keep_synBlock (s u : Tcb) (seg : Hdr) (r : Option ProcessSegmentResult)
@@ -295,11 +295,26 @@ theorem keep_advanceTime (s u : Tcb) (dt : Nat) (r : AdvanceTimeResult) (h : s.a
       | (cases h; done)
       | (cases h; ports_leaf)
 
+theorem keep_queueFin (s u : Tcb) (h : s.queueFin = .ok u) : PortsKeep s u := by
+  rw [queueFin_eq] at h
+  split at h
+  · cases h; exact keep_right (keep_enqueueBuilt _ _ rfl) rfl rfl rfl
+  · cases h; exact PortsKeep.refl _
+
+theorem keep_finIfPending (b : Bool) (s u : Tcb) (h : Tcb.finIfPending b s = .ok u) : PortsKeep s u := by
+  unfold Tcb.finIfPending at h
+  split at h
+  · exact keep_queueFin _ _ h
+  · cases h; exact PortsKeep.refl _
+
 theorem keep_close (s u : Tcb) (r : CloseResult) (h : s.close = .ok (u, r)) : PortsKeep s u := by
   unfold Tcb.close at h
-  simp only [Tcb.enqueue_eq] at h
-  repeat' (split at h)
-  all_goals (cases h; ports_leaf)
+  split at h
+  all_goals first
+    | (cases h; exact PortsKeep.refl _)
+    | (split at h
+       · cases h
+       · rename_i hq; cases h; exact keep_left (keep_queueFin _ _ hq) rfl rfl rfl)
 
 theorem keep_abortRst (s : Tcb) :
     PortsKeep s (({ s with outgoing := {} } : Tcb).enqueueBuilt
@@ -370,13 +385,19 @@ theorem ports_segments (s u : Tcb) (segs : List Segment) (p : U16) (hs : PortsOk
     rw [hv] at h
     dsimp only at h
     have hc : PortsOk (clearOneshot s) p := ⟨hs.lp, (fun _ hh => by cases hh), hs.rtx⟩
-    have hvp : PortsOk v p := hc.of_keep (keep_segmentizeIfOpen _ _ hv)
-    have km : ∀ b, PortsKeep v (markSent v b) := by
+    have hvp1 : PortsOk v p := hc.of_keep (keep_segmentizeIfOpen _ _ hv)
+    cases hf : Tcb.finIfPending s.finPending v with
+    | error e => rw [hf] at h; cases h
+    | ok v2 =>
+    rw [hf] at h
+    dsimp only at h
+    have hvp : PortsOk v2 p := hvp1.of_keep (keep_finIfPending _ _ _ hf)
+    have km : ∀ b, PortsKeep v2 (markSent v2 b) := by
       intro b
       unfold markSent
       cases b
-      · exact keep_right (keep_needs v false) rfl rfl rfl
-      · exact keep_needs v false
+      · exact keep_right (keep_needs v2 false) rfl rfl rfl
+      · exact keep_needs v2 false
     cases h
     refine ⟨hvp.of_keep (km _), fun sg hsg => ?_⟩
     simp only [List.mem_append, List.mem_map, List.mem_filter] at hsg
